@@ -201,6 +201,7 @@ pub fn evaluate(spec: &Spec, completed: bool) -> Vec<Violation> {
             "c08_cache" => cache::c08_cache(&mut cx),
             "c16_pause" => control::c16_pause(&mut cx),
             "c17_shutdown" => control::c17_shutdown(&mut cx),
+            "c14_reload" => control::c14_reload(&mut cx),
             "c07_bans" => routing::c07_bans(&mut cx),
             "c07_expiry" => routing::c07_expiry(&mut cx),
             other => {
